@@ -139,6 +139,21 @@ def run_case(ctx, name, params):
                 extra_["params"] = prm_
                 fail_rate = max(fail_rate, 0.2)
                 ctx.count("runs_with_coarse_precision_and_failures")
+            if algo == "nsga2" and "params" not in extra_ and r.random() < 0.3:
+                # a start population supplied by the user (public attribute `generator`), some designs listed more than once: the
+                # first generation may repeat designs, no later one does
+                start_ = [[lb + r.random() * (ub - lb) for lb, ub in setup["bounds"]] for _ in range(N)]
+                for k_ in range(N):
+                    if k_ and r.random() < 0.4:
+                        start_[k_] = list(start_[r.randrange(k_)])
+
+                def prepare_(a_, p_):
+                    from artap.operators import CustomGenerator
+                    g_ = CustomGenerator(p_.parameters)
+                    g_.init([list(v) for v in start_])
+                    a_.generator = g_
+                extra_["prepare"] = prepare_
+                ctx.count("nsga2_runs_with_a_user_supplied_start_population_with_repeats")
             aborted_first = abort["at"] is not None
             p, a, err = insitu.run_one(setup, script=script if (fail_rate or aborted_first) else None, **extra_)
             if rerun and not isinstance(err, insitu.RunTimeout) and (err is None or (aborted_first and isinstance(err, ValueError))):
